@@ -16,17 +16,27 @@ theorem tick_pings_iff (cfg : Cfg) (now : Nat) (s : Eng) :
     (onTick cfg now s).2.net = [pingAct cfg] ↔
       (s.phase = .data ∧ s.version ≠ some .v2 ∧ s.waitingForPong = false
         ∧ ∃ ivl, cfg.heartbeatIvl = some ivl ∧ ivl ≤ now - s.lastActivity) := by
-  sorry
+  unfold onTick pingAct
+  cases hto : cfg.heartbeatTimeout <;> cases hlp : s.lastPing <;> cases hiv : cfg.heartbeatIvl <;>
+    cases hw : s.waitingForPong <;> simp only [] <;> repeat' split
+  all_goals simp_all
 
 /-- a tick never sends anything but that one PING -/
 theorem tick_net_only_ping (cfg : Cfg) (now : Nat) (s : Eng) :
     (onTick cfg now s).2.net = [] ∨ (onTick cfg now s).2.net = [pingAct cfg] := by
-  sorry
+  unfold onTick pingAct
+  cases hto : cfg.heartbeatTimeout <;> cases hlp : s.lastPing <;> cases hiv : cfg.heartbeatIvl <;>
+    cases hw : s.waitingForPong <;> simp only [] <;> repeat' split
+  all_goals simp_all
 
 /-- not early: a PING is sent only when at least HEARTBEAT_IVL has passed since the last activity -/
 theorem ping_not_early (cfg : Cfg) (now : Nat) (s : Eng) (ivl : Nat) (hi : cfg.heartbeatIvl = some ivl)
     (h : (onTick cfg now s).2.net ≠ []) : ivl ≤ now - s.lastActivity := by
-  sorry
+  revert h
+  unfold onTick
+  cases hto : cfg.heartbeatTimeout <;> cases hlp : s.lastPing <;>
+    cases hw : s.waitingForPong <;> simp only [hi] <;> repeat' split
+  all_goals simp_all
 
 /-- not late: if ticks come at least every HEARTBEAT_IVL (the actor's interval timer), the first tick at or
 after `lastActivity + ivl` sends the PING, and it happens before `lastActivity + 2·ivl`. -/
@@ -35,7 +45,10 @@ theorem ping_not_late (cfg : Cfg) (s : Eng) (ivl t0 t1 : Nat) (hi : cfg.heartbea
     (h0 : t0 < s.lastActivity + ivl) (hgap : t1 ≤ t0 + ivl) (hdue : s.lastActivity + ivl ≤ t1) :
     (onTick cfg t1 s).2.net = [pingAct cfg] ∧ t1 < s.lastActivity + 2 * ivl
     ∧ (onTick cfg t1 s).1.waitingForPong = true ∧ (onTick cfg t1 s).1.lastPing = some t1 := by
-  sorry
+  have h1 : ivl ≤ t1 - s.lastActivity := by omega
+  have h2 : t1 < s.lastActivity + 2 * ivl := by omega
+  unfold onTick pingAct
+  cases hto : cfg.heartbeatTimeout <;> cases hlp : s.lastPing <;> simp [hi, hd, hv, hw, h1, h2]
 
 /-- dead peer: no PONG within HEARTBEAT_TIMEOUT of the PING ⇒ the first tick at/after the deadline closes
 the connection with a timeout error -/
@@ -43,21 +56,28 @@ theorem dead_peer_closed (cfg : Cfg) (s : Eng) (now p tmo : Nat) (ht : cfg.heart
     (hd : s.phase = .data) (hv : s.version ≠ some .v2) (hw : s.waitingForPong = true)
     (hp : s.lastPing = some p) (hdl : p + tmo ≤ now) :
     (onTick cfg now s).2.app = [.peerError .timeout] ∧ (onTick cfg now s).1.phase = .closed := by
-  sorry
+  have h1 : tmo ≤ now - p := by omega
+  unfold onTick
+  simp [ht, hd, hv, hw, hp, h1]
 
 /-- a tick raises the heartbeat timeout only if a PING is outstanding and its deadline has passed -/
 theorem timeout_only_after_deadline (cfg : Cfg) (s : Eng) (now : Nat)
     (hmono : ∀ p, s.lastPing = some p → p ≤ now)
     (h : (onTick cfg now s).2.app ≠ []) :
     s.waitingForPong = true ∧ ∃ p tmo, s.lastPing = some p ∧ cfg.heartbeatTimeout = some tmo ∧ p + tmo ≤ now := by
-  sorry
+  revert h
+  unfold onTick
+  cases hto : cfg.heartbeatTimeout <;> cases hlp : s.lastPing <;> cases hiv : cfg.heartbeatIvl <;>
+    cases hw : s.waitingForPong <;> simp only [] <;> repeat' split
+  all_goals simp_all
+  all_goals omega
 
 /-- live peer: *any* frame received in the data phase (a PONG, another command, or application data) clears
 the outstanding PING and refreshes the activity clock -/
 theorem traffic_keeps_alive (spec : AbsSpec) (cfg : Cfg) (now : Nat) (s s' : Eng) (o : Out)
     (hd : s.phase = .data) (h : step spec cfg now s = some (s', o)) (hd' : s'.phase = .data) :
     s'.waitingForPong = false ∧ s'.lastActivity = now := by
-  sorry
+  exact step_data_refreshes spec cfg now s s' o hd h hd'
 
 /-- hence a peer that answers (or keeps sending) before each deadline is never disconnected by a tick:
 after inbound traffic at time `r`, no tick before `r + ivl` pings and no tick at all times out until a new
@@ -65,7 +85,7 @@ PING has gone unanswered for the full timeout -/
 theorem answering_peer_survives (spec : AbsSpec) (cfg : Cfg) (r now : Nat) (s s' : Eng) (o : Out)
     (hd : s.phase = .data) (h : step spec cfg r s = some (s', o)) (hd' : s'.phase = .data) :
     (onTick cfg now s').2.app = [] := by
-  sorry
+  exact onTick_app_nil_of_not_waiting cfg now s' (step_data_refreshes spec cfg r s s' o hd h hd').1
 
 /-- every well-formed PING is answered by exactly one PONG carrying the same context bytes … -/
 theorem pong_echoes_context (spec : AbsSpec) (cfg : Cfg) (now : Nat) (s : Eng) (ttl : Nat) (ctx rest : Bytes)
@@ -75,20 +95,22 @@ theorem pong_echoes_context (spec : AbsSpec) (cfg : Cfg) (now : Nat) (s : Eng) (
     (hacc : s.acc = encodeCodec (cmdFrame (Gen.mkPing ++ be16 ttl ++ ctx)) ++ rest) :
     ∃ s', step spec cfg now s = some (s', { net := [sendAct (pongBytes ctx)], app := [] })
       ∧ s'.acc = rest ∧ s'.phase = .data := by
-  sorry
+  exact step_ping spec cfg now s ttl ctx rest hd hv hs hp hlen hmax hacc
 
 /-- … and the PONG the engine emits parses back to that context -/
 theorem pong_roundtrip (ctx : Bytes) : parseCmd (Gen.mkPong ++ ctx) = some (.pong ctx) := by
-  sorry
+  exact parseCmd_pong ctx
 
 /-- no heartbeat is ever sent on a ZMTP/2.0 session -/
 theorem v2_never_pings (cfg : Cfg) (now : Nat) (s : Eng) (hv : s.version = some .v2) :
     onTick cfg now s = (s, {}) := by
-  sorry
+  unfold onTick
+  simp [hv]
 
 /-- nor before the handshake has completed -/
 theorem no_ping_before_data (cfg : Cfg) (now : Nat) (s : Eng) (h : s.phase ≠ .data) :
     onTick cfg now s = (s, {}) := by
-  sorry
+  unfold onTick
+  simp [h]
 
 end Rzmq.C19
